@@ -182,6 +182,8 @@ def _fold_kin(args):
             "eko.quantities.heavy_quarks.MatchingScales": R._matching_scales,
             "eko.matchings.Atlas": R._atlas,
             "eko.matchings.nf_default": R.make_nf_default(cell),
+            "numpy.searchsorted": R.make_searchsorted(cell),
+            "numpy.digitize": R.make_digitize(cell),
         }
         from .. import pcmodel as P
 
